@@ -84,3 +84,28 @@ def valuetype_struct():
     st = "struct ValueType { enum Sign sign; enum VType type; int bits; int pointer; int constness; };\n"
     fn = "#define type (self->type)\n%s %s\n#undef type\n" % (add_self(sig, "const struct ValueType *self", "ValueType_isIntegral"), body)
     return st + fn, loc
+
+
+def str_rules(name, mincount=0):
+    """rules lowering a read-only `const std::string &<name>` to (const char *<name>, size_t <name>_len)."""
+    n = re.escape(name)
+    return [
+        (r'const\s+std::string\s*&\s*%s\b' % n, 'const char *%s, size_t %s_len' % (name, name), mincount),
+        (r'\b%s\.empty\(\)' % n, '(%s_len == 0)' % name, 0),
+        (r'\b%s\.(?:size|length)\(\)' % n, '%s_len' % name, 0),
+        (r'\b%s\.c?begin\(\)' % n, '%s' % name, 0),
+        (r'\b%s\.c?end\(\)' % n, '(%s + %s_len)' % (name, name), 0),
+        (r'\b%s\.back\(\)' % n, '%s[%s_len - 1]' % (name, name), 0),
+        (r'\b%s\.front\(\)' % n, '%s[0]' % name, 0),
+    ]
+
+
+def enum_class_rule(ename):
+    """`enum class E : T { A, B }` -> `enum E { E_A, E_B }` and `E::A` -> `E_A`."""
+    def repl(mo):
+        items = [x.strip() for x in mo.group(1).split(',') if x.strip()]
+        return "enum %s { %s }" % (ename, ", ".join("%s_%s" % (ename, i) for i in items))
+    return [
+        (r'enum\s+class\s+%s\s*:\s*std::uint8_t\s*\{([^}]*)\}' % ename, repl, 1, 1),
+        (r'\b%s::(\w+)' % ename, r'%s_\1' % ename, 1),
+    ]
